@@ -39,6 +39,11 @@ def p_c12(run):
     import whole as W
     q = run.tier == "quick"
     ck.whole_tie(run, ("native", "w32", "noua", "neutral", "neutral32"), (W.QUICK_BLK + W.QUICK_MBLK[:2]) if q else (W.BLK_PARTS + W.MBLK_PARTS))
+    # the mode layers that exist in every configuration (generic back ends): the same model statement in all five
+    gen_parts = ["pctr_c128_19_5", "pctr_mc_9_8", "ppar_c128_def_enc_48", "ppar_mc_def_crypt_24", "sctr_c64_def_3", "kctr_c128_def_stk_19",
+                 "mkey_setkey_6_0", "kpar_c64_sk_17"]
+    if not q: gen_parts = [p_ for p_ in W.pctr_parts(False) + W.ppar_parts(False) + W.sctr_parts(False) if "_def_" in p_ or p_.startswith("pctr")]
+    ck.whole_tie(run, ("native", "w32", "noua", "neutral", "neutral32"), gen_parts)
     scripts = G.gen_mix(run.rng, run.tier)
     cfgs = list(C.CONFIGS)
     builds = [(c, "gcc", "-O2") for c in cfgs]
